@@ -5,6 +5,7 @@ whitespace and single-token mutations, parsed by the real `expressions.parse` an
 error reason/token/position, structure, literal values, str().  Spec oracle: the independent grammar recogniser (Grammar.v),
 and the print/parse fixpoint checked on the implementation's own str() output.
 """
+import asyncio
 import time
 
 from harness.common import coq, pyvals
@@ -175,6 +176,122 @@ def run_impl(texts):
 HEADER = 'From QT Require Import C03.Run.\nOpen Scope Z_scope.\n'
 
 
+# ----------------------------------------------------------------------------------------------------------------
+# the hub's entry point: PATCH /ports/{id} {"expression": text} and the expression attribute reported afterwards must agree
+# with the parser's verdict on the very text that was submitted
+
+async def _run_hub(texts):
+    import types
+    from qtoggleserver.conf import settings
+    settings.persist.driver = 'qtoggleserver.drivers.persist.JSONDriver'
+    settings.persist.file_path = None
+    from qtoggleserver.core import expressions
+    from qtoggleserver.core import api as core_api
+    from qtoggleserver.core import main, ports as core_ports
+    from qtoggleserver.core.api.funcs import ports as api_ports
+    from qtoggleserver.core.expressions import ROLE_VALUE
+    from qtoggleserver.core.expressions.exceptions import ExpressionParseError
+
+    class HubPort(core_ports.Port):
+        TYPE = core_ports.TYPE_NUMBER
+        WRITABLE = True
+
+        async def read_value(self):
+            return 1
+
+        async def write_value(self, value):
+            pass
+
+    core_ports._ports_by_id.clear()
+    ports = await core_ports.load([{'driver': HubPort, 'port_id': 'self'}], trigger_add=False)
+    port = ports[0]
+    await port.enable()
+    handler = types.SimpleNamespace(access_level=core_api.ACCESS_LEVEL_ADMIN, username='c03',
+                                    request=types.SimpleNamespace(headers={}, method='PATCH', path='/ports/self', body=b'',
+                                                                  query_arguments={}))
+    out = []
+    try:
+        for text in texts:
+            try:
+                e = expressions.parse('self', text, ROLE_VALUE)
+                want = ('ok', str(e))
+            except ExpressionParseError as exn:
+                want = ('err', exn.to_json())
+            except Exception as exn:  # noqa: BLE001
+                want = ('crash', '%s: %s' % (type(exn).__name__, exn))
+            before = str(port.get_expression() or '')
+            try:
+                await api_ports.patch_port(handler, 'self', {'expression': text})
+                got = ('ok',)
+            except core_api.APIError as exn:
+                got = ('err', exn.status, exn.code, dict(exn.params))
+            except Exception as exn:  # noqa: BLE001
+                got = ('crash', '%s: %s' % (type(exn).__name__, exn))
+            held = str(port.get_expression() or '')
+            reported_now = (await port.to_json()).get('expression')
+            await main.update()
+            for _ in range(3):
+                await asyncio.sleep(0)
+            reported_later = (await port.to_json()).get('expression')
+            out.append({'text': text, 'want': want, 'got': got, 'before': before, 'held': held,
+                        'reported_now': reported_now, 'reported_later': reported_later})
+    finally:
+        for t in (port._write_value_task, port._eval_task):
+            if t is not None and not t.done():
+                t.cancel()
+        await asyncio.sleep(0)
+        core_ports._ports_by_id.clear()
+    return out
+
+
+def run_hub(ctx, res, texts):
+    """verdict of the hub vs verdict of the parser on the same text (the parser itself is compared with the Coq model and the
+    grammar in run_batch)"""
+    from qtoggleserver.core import expressions
+    from qtoggleserver.core.expressions import ROLE_VALUE
+    rows = asyncio.run(_run_hub(texts))
+    d = res['distribution']
+    for r in rows:
+        res['evaluations'] += 1
+        text, want, got = r['text'], r['want'], r['got']
+        d['hub:' + want[0]] = d.get('hub:' + want[0], 0) + 1
+        problem = None
+        if text == '':
+            # documented short-cut of the hub: the empty text removes the expression
+            if got != ('ok',) or r['held'] != '':
+                problem = 'the empty text did not remove the expression'
+        elif want[0] == 'ok':
+            if got != ('ok',):
+                problem = 'the parser accepts the text but PATCH /ports/self answers %r' % (got,)
+            elif r['held'] != want[1]:
+                problem = 'accepted, but the port holds %r instead of %r' % (r['held'], want[1])
+            elif r['reported_later'] != want[1]:
+                problem = 'accepted, but GET reports %r instead of the canonical text %r' % (r['reported_later'], want[1])
+            else:
+                try:
+                    again = str(expressions.parse('self', r['reported_now'], ROLE_VALUE))
+                except Exception as exn:  # noqa: BLE001
+                    again = 'unparsable (%s)' % type(exn).__name__
+                if again != want[1]:
+                    problem = 'right after the request GET reports %r, which is not a text of the accepted expression' % (r['reported_now'],)
+        elif want[0] == 'err':
+            if got[0] != 'err' or got[1] != 400:
+                problem = 'the parser rejects the text (%s) but PATCH /ports/self answers %r' % (want[1].get('reason'), got)
+            elif got[3].get('details') != want[1]:
+                problem = 'rejected, but with details %r where the parser reports %r' % (got[3].get('details'), want[1])
+            elif r['held'] != r['before'] or r['reported_later'] != r['before']:
+                problem = 'rejected, but the expression of the port changed from %r to %r (reported: %r)' % (r['before'], r['held'], r['reported_later'])
+        else:
+            res['tie_failures'].append({'text': text, 'note': 'parser raised a non-parse exception: %s' % want[1]})
+            continue
+        if problem:
+            res['violations'].append({
+                'key': {'kind': 'hub-entry-point', 'parser_accepts': want[0] == 'ok', 'whitespace_only': bool(text) and not text.strip(),
+                        'leading_whitespace': bool(text) and text[0].isspace()},
+                'what': 'PATCH /ports/self {"expression": %r}: %s' % (text, problem),
+                'case': {'text': text, 'through': 'qtoggleserver.core.api.funcs.ports.patch_port'}, 'observed': r})
+
+
 def run_batch(ctx, res, texts, hist, tag):
     results = run_impl(texts)
     rows, meta = [], []
@@ -312,12 +429,19 @@ def check(ctx, res):
               'ADD(1 2, 3)', 'ADD(SUB(1,2),MUL(3,4,5))', 'HISTORY(@p,1,2)', 'HISTORY($p,1,2)']
     res['rule'] = ('grammar-generated texts over all %d registered functions (depth <= 3, random ASCII whitespace incl. \\x0b, \\x1f), '
                    'literals of every accepted form plus malformed ones; 45%% single-token mutated (dropped/added parenthesis or comma, '
-                   'illegal character, unknown name, $<->@, wrong arity); distinct = distinct texts; non-trivial = contains a call'
+                   'illegal character, unknown name, $<->@, wrong arity); a sample of them also goes through the real PATCH /ports/{id} '
+                   '(verdict, error details, expression held and reported afterwards vs the parser on the same text); '
+                   'distinct = distinct texts; non-trivial = contains a call'
                    % len(table_gen))
     t0 = time.time()
     allres = []
     for i in range(0, len(texts), 5000):
         allres += run_batch(ctx, res, texts[i:i + 5000], hist, 'b%d' % i)
+    # the hub's entry point on a sample of the same texts, plus the whitespace corner cases
+    hub_texts = ['', ' ', '   ', '\t', ' \n ', '  ADD(1, #)', ' ADD(1,2) ', 'ADD(1, 2)', '  $p1', ' NOSUCH(1)', 'ADD( 1 ,2 )', '', 'SUB(1 2)',
+                 '12', ' 12.50 ', 'GT(TIME(), 1552559696)', 'MUL($, 3.14159265)', '$', '@', '']
+    hub_texts += [texts[ctx.rng.randrange(len(texts))] for _ in range(ctx.n(600, 6000))]
+    run_hub(ctx, res, hub_texts)
     # the set of known functions can change while the hub runs (HISTORY exists only with a samples-capable driver and
     # history support): the same process parses with HISTORY available, then unavailable again
     hist_texts = ['HISTORY(@p1, 1, 2)', ' HISTORY( @ , 0,0)', 'ADD(HISTORY(@a.b, 1, -1), 1)', 'HISTORY($p1, 1, 2)', 'HISTORY(@p1, 1)',
